@@ -1067,9 +1067,9 @@ class Check(PropCheck):
             'non-trivial when some receiver gives a non-empty result or the expression has a predicate (hostile: the text has '
             'more than one character), distinct by canonical JSON')
     assumptions = [
-        'the regex tokenizers are modelled (AHP/Model/XPathParse.lean, ASCII-exact) and proved to read the canonical text of '
-        'every writable expression as its flat form (parse_render); other renderings (random white space / quotes / case) and '
-        'malformed texts: tie only (the model parses the text the library gets; hostile texts compare the parsed structure)',
+        'the regex tokenizers are modelled (AHP/Model/XPathParse.lean, ASCII-exact) and proved to read the text of every '
+        'writable expression, in every layout (white space / letter case / quote: a superset of what is randomised here), as its '
+        'flat form (parse_render); malformed texts: tie only (hostile texts compare the parsed structure with the library)',
         'numbers: theorems over an abstract numeric structure; the driver uses IEEE doubles (Lean Float) like CPython',
         'normalize-space() strips leading/trailing white space only; arithmetic operators share one precedence level, and so do '
         'and/or (left to right): the reading of the property text that the code and the reference interpreter share',
